@@ -57,3 +57,38 @@ def ideal_receive(stream):
         if len(body) >= 2:
             out.append((body[0], body[2:]))
     return out
+
+
+def scan_transmitter_output(stream):
+    """The statement's grammar of what a transmitter may put on the wire, as a scanner: frames  7E body 7E  back to back; inside a body every
+    octet is either plain (then it is neither 7E nor 00; 7D is the escape marker) or the pair 7D x with x neither 7E nor 00, standing for
+    x xor 20.  Which octets beyond {7E, 7D, 00} an implementation escapes is its own choice.
+    -> (list of decoded bodies, None) or (bodies so far, (index, what is wrong))"""
+    frames, i, n = [], 0, len(stream)
+    while i < n:
+        if stream[i] != FLAG:
+            return frames, (i, "octet %02x outside a frame (expected the opening flag)" % stream[i])
+        i += 1
+        body = []
+        while True:
+            if i >= n:
+                return frames, None if not body and False else (i, "wire ends inside a frame")
+            b = stream[i]
+            if b == FLAG:
+                i += 1
+                break
+            if b == 0:
+                return frames, (i, "unescaped zero octet inside a frame")
+            if b == ESCAPE:
+                if i + 1 >= n:
+                    return frames, (i, "wire ends after an escape marker")
+                x = stream[i + 1]
+                if x in (FLAG, 0):
+                    return frames, (i + 1, "octet %02x after the escape marker" % x)
+                body.append(x ^ 0x20)
+                i += 2
+            else:
+                body.append(b)
+                i += 1
+        frames.append(body)
+    return frames, None
